@@ -443,7 +443,7 @@ def worker(ctx):
                     tree = ast.parse(text)
                 except SyntaxError as e:
                     odd = [i.file.basename for i in g.imports if not i.file.basename.isidentifier()]
-                    line = text.splitlines()[e.lineno - 1] if e.lineno and e.lineno <= len(text.splitlines()) else ""
+                    line = text.split("\n")[e.lineno - 1] if e.lineno and e.lineno <= len(text.split("\n")) else ""
                     if odd and line.startswith("import ") and any(b in line for b in odd):
                         res.violation("py-import-statement-from-file-name", f"{g.basename}_bp.py: `{line}` is no Python (imported file name {odd[0]!r})", wit)
                     else:
